@@ -26,7 +26,7 @@ func init() {
 	core.Register(&core.Property{
 		ID:    "C06",
 		Level: "model_checking",
-		Rule: "universe = non-matching (patch, file) pairs: patches of every pattern kind incl. near-misses, failing and holding package/import guards with a non-matching body, multi-change and multi-file patches x files = 4 base sources x 13 layout variants (gofmt-ed, not gofmt-ed, CRLF, no final newline, BOM, trailing whitespace, mixed indentation, odd comments, build tags, unsorted/duplicated/grouped imports) x all 24 combinations of {default,--diff,--print-only} x --skip-import-processing x --skip-generated x -v, plus the library API; near-misses in which an expression metavariable is first bound to every construct of the catalogue (statements and declarations inside a function literal) before a later argument / statement of the pattern fails; two-change patches in which one change declares as a metavariable a name the other uses as an ordinary identifier; near-misses in which the FILE has a position-encoded token the pattern lacks (variadic, alias, grouped declaration) and for-headers with init/post around the elision; two targets in one run (5 x 3 layouts x 4 patches x 26 flag sets). " +
+		Rule: "universe = non-matching (patch, file) pairs: patches of every pattern kind incl. near-misses, failing and holding package/import guards with a non-matching body, multi-change and multi-file patches x files = 4 base sources x 13 layout variants (gofmt-ed, not gofmt-ed, CRLF, no final newline, BOM, trailing whitespace, mixed indentation, odd comments, build tags, unsorted/duplicated/grouped imports) x all 24 combinations of {default,--diff,--print-only} x --skip-import-processing x --skip-generated x -v, plus the library API; near-misses in which an expression metavariable is first bound to every construct of the catalogue (statements and declarations inside a function literal) before a later argument / statement of the pattern fails; an unmatched file that follows a file whose rewrite failed; changes with several guards of which one fails while the body matches; two-change patches in which one change declares as a metavariable a name the other uses as an ordinary identifier; near-misses in which the FILE has a position-encoded token the pattern lacks (variadic, alias, grouped declaration) and for-headers with init/post around the elision; two targets in one run (5 x 3 layouts x 4 patches x 26 flag sets). " +
 			"oracle needs no model: snapshot (bytes, inode, mtime, mode, no new entries), exact stdout/stderr, exit 0, Apply returns the input bytes. non-trivial = file is not in canonical gofmt form or a guard of the patch holds",
 		Assumptions: []string{"the generator's claim that nothing matches is cross-checked: the output of an applied change would contain the marker identifier `mark`, which no input contains"},
 		Bounds: func(tier string) map[string]any {
@@ -67,6 +67,12 @@ func c06Patches() []c06Patch {
 		g("package-rename", "@@\n@@\n-package a\n+package mark\n\n-nomatch()\n+mark()\n"),
 		one("package-guard-fails", "@@\nvar x expression\n@@\n package other\n-fmt.Println(x)\n+mark(x)\n"),
 		one("import-guard-fails", "@@\nvar x expression\n@@\n import \"nomatch/pkg\"\n-fmt.Println(x)\n+mark(x)\n"),
+		// the body matches, but one of several guards of the change does not hold
+		one("package-fails-import-holds", "@@\nvar x expression\n@@\n package other\n\n import \"fmt\"\n\n-fmt.Println(x, b)\n+mark(x)\n"),
+		one("first-import-fails-last-holds", "@@\nvar x expression\n@@\n import \"nomatch/pkg\"\n import \"fmt\"\n\n-fmt.Println(x, b)\n+mark(x)\n"),
+		one("first-of-three-imports-fails", "@@\nvar x expression\n@@\n import \"nomatch/pkg\"\n import \"strings\"\n import \"fmt\"\n\n-fmt.Println(x, b)\n+mark(x)\n"),
+		one("middle-import-fails", "@@\nvar x expression\n@@\n import (\n   \"fmt\"\n   \"nomatch/pkg\"\n   \"strings\"\n )\n\n-fmt.Println(x, b)\n+mark(x)\n"),
+		one("package-holds-import-fails", "@@\nvar x expression\n@@\n package a\n\n import \"nomatch/pkg\"\n\n-fmt.Println(x, b)\n+mark(x)\n"),
 		// the file has a position-encoded token that the pattern lacks
 		one("nearmiss-file-variadic", "@@\nvar x expression\n@@\n-spread(x)\n+mark(x)\n"),
 		one("nearmiss-file-alias", "@@\n@@\n-type Alias2 S\n+type mark S\n"),
@@ -180,6 +186,15 @@ func c06Gen(tier string, emit func(any)) {
 	}
 	firsts := []string{"unnamed-imports/no-final-newline", "unnamed-imports/crlf", "no-imports/bom", "single-import/gofmt", "no-imports/no-final-newline"}
 	seconds := []string{"no-imports/gofmt", "unnamed-imports/no-final-newline", "named-imports/not-gofmt"}
+	// an earlier file of the run matches but cannot be rewritten (the '+' side uses a metavariable nothing binds);
+	// the file after it, to which nothing applies, is treated like any other unmatched file
+	failing := "package a\n\nfunc r() {\n\tbaz(1)\n}\n"
+	failPatch := "@@\nvar x, y expression\n@@\n-baz(x)\n+qux(x, y)\n"
+	for _, b := range append(append([]string{}, firsts...), seconds...) {
+		for _, fs := range c06FlagSets() {
+			emit(&C06Case{PatchID: "after-failure", Patches: []string{failPatch}, FileID: "failing", File: failing, File2ID: b, File2: pick(b).src, Flags: fs})
+		}
+	}
 	for _, p := range c06Patches()[:4] {
 		for _, a := range firsts {
 			for _, b := range seconds {
@@ -280,6 +295,37 @@ func c06Run(env *core.Env, ci any) core.Outcome {
 		}
 		if d := before.Diff(sb.snap("t"), false); d != "" {
 			return bad("touched", "nothing matches but the tree changed:\n%s\ncontent now: %q", d, sb.read("t/a.go"))
+		}
+		if c.PatchID == "after-failure" {
+			// a.go fails (exit 1, its path on stderr, nothing printed for it); b.go is an unmatched file like any other
+			if r.Exit == 0 || !strings.Contains(r.Stderr, "a.go") || strings.Contains(r.Stderr, "b.go") {
+				return bad("after-failure", "expected a failure naming a.go only: exit %d, stderr %q", r.Exit, r.Stderr)
+			}
+			// stdout: [the failed file echoed as it is] [a log line about it] the unmatched file's bytes (--print-only)
+			// [a log line about it (-v)] — whether and how the failed file shows up is not this property's business
+			rest := r.Stdout
+			if contains(c.Flags, "--print-only") && strings.HasPrefix(rest, c.File) {
+				rest = rest[len(c.File):]
+			}
+			if r2, ok := cutLogLine(rest, sb.path("t/a.go")); ok && contains(c.Flags, "-v") {
+				rest = r2
+			}
+			if contains(c.Flags, "--print-only") {
+				if !strings.HasPrefix(rest, c.File2) {
+					return bad("after-failure", "after a file that failed, --print-only does not echo the unmatched file: stdout %q", r.Stdout)
+				}
+				rest = rest[len(c.File2):]
+			}
+			if contains(c.Flags, "-v") {
+				var ok bool
+				if rest, ok = cutLogLine(rest, sb.path("t/b.go")); !ok {
+					return bad("after-failure", "-v: expected one log line about the unmatched file, stdout %q", r.Stdout)
+				}
+			}
+			if rest != "" {
+				return bad("after-failure", "after a file that failed, unexpected output for the unmatched file: %q (stdout %q)", rest, r.Stdout)
+			}
+			return out
 		}
 		if r.Exit != 0 {
 			return bad("exit", "exit %d, stderr %q", r.Exit, r.Stderr)
